@@ -220,7 +220,19 @@ func c20Mixed(c *core.Ctx, n int) {
 		return q{name, head("single-choice", marked) + "# S\n\nWhich program draws the same as this program?\n\n```evy\n" + progBig2 + "```\n\n" + fence(progSmall) + fence(progBig) + "- ![answer](img/tiny.evy.svg)\n", ok,
 			"image question with a program as question: only b draws the same; marked " + marked}
 	}
+	// the same output reached through every kind of choice: linked program run for its text, program
+	// block, literal text block; characters that markup would escape
+	special := []string{"x < y & \"z\" > 'w'", "a<b>&amp;", "1 & 2"}[r.Intn(3)]
+	write(filepath.Join(dir, "txt", "sp.evy"), "print \""+strings.ReplaceAll(special, "\"", "\\\"")+"\"\n")
+	write(filepath.Join(dir, "txt", "other.evy"), "print \"other\"\n")
+	escaped := strings.NewReplacer("&", "&amp;", "<", "&lt;", ">", "&gt;", "\"", "&#34;", "'", "&#39;").Replace(special)
+	linkQ := func(name, marked string, ok bool) q {
+		md := head("multiple-choice", marked) + "# L\n\nWhich of these are the output of this program?\n\n```evy\nprint \"" + strings.ReplaceAll(special, "\"", "\\\"") + "\"\n```\n\n" +
+			"- [answer](txt/sp.evy \"evy:text\")\n- ```\n  " + special + "\n  ```\n- ```\n  " + escaped + "\n  ```\n- [answer](txt/other.evy \"evy:text\")\n"
+		return q{name, md, ok, "link question: a (linked program, text) and b (literal text) are the output, c is its HTML-escaped form, d another text; marked " + marked}
+	}
 	qs := []q{
+		linkQ("l-right.md", "a, b", true), linkQ("l-wrong1.md", "b, c", false), linkQ("l-wrong2.md", "a", false), linkQ("l-wrong3.md", "a, b, c", false),
 		textQ("t-right.md", "a, b, c", true), textQ("t-wrong.md", "a, c, d", false),
 		imgQ("i-right.md", "a, c, d", true), imgQ("i-wrong.md", "a, b, c", false), imgQ("i-wrong2.md", "a, b, c, d", false),
 		img1("s-right.md", "b", true), img1("s-wrong.md", "a", false),
